@@ -114,6 +114,12 @@ const (
 	FWriteENOSPC = "write-short-enospc" // this sector write fails, earlier sectors stay
 	FWriteEIO    = "write-short-eio"
 	FCloseEIO    = "close-eio" // close reports a deferred write error
+	// stdout redirected to a file on a full or failing disk (or to /dev/full):
+	// this write delivers at most Param bytes and fails, and so does every
+	// later one
+	FStdoutENOSPC = "stdout-enospc"
+	FStdoutEIO    = "stdout-eio"
+	FStderrEIO    = "stderr-eio" // stderr is closed or broken: messages are lost
 	FKill        = "kill"      // process dies at this step (before its effect)
 )
 
@@ -133,6 +139,7 @@ const (
 	SOpenRead  = "open-read"
 	SFileRead  = "file-read"
 	SStdout    = "stdout"
+	SStdout0   = "stdout-empty" // a write of zero bytes: cannot fail
 	SStderr    = "stderr"
 	SExit      = "exit"
 	SGetenv    = "getenv"
@@ -149,8 +156,8 @@ var applies = map[string][]string{
 	SOpenWrite: {FOpenWEACCES, FOpenWENOENT, FOpenWEROFS, FOpenWENOSPC, FKill},
 	SWrite:     {FWriteENOSPC, FWriteEIO, FKill},
 	SClose:     {FCloseEIO, FKill},
-	SStdout:    {FKill},
-	SStderr:    {FKill},
+	SStdout:    {FStdoutENOSPC, FStdoutEIO, FKill},
+	SStderr:    {FStderrEIO, FKill},
 }
 
 // Applicable lists the fault kinds that can fire on a step kind.
@@ -217,6 +224,8 @@ type Proc struct {
 
 	Stdout bytes.Buffer
 	Stderr bytes.Buffer
+	// a failed stdout or stderr stays failed (the disk stays full)
+	stdoutErr, stderrErr syscall.Errno
 	Steps  []StepRec
 	Fired  []Fault
 	Clock  int64 // logical clock: one tick per step
@@ -603,12 +612,39 @@ func (h *Handle) Write(b []byte) (int, error) {
 	p := Cur
 	switch h.std {
 	case 1:
-		rec, _ := p.step(SStdout, "")
+		if len(b) == 0 {
+			rec, _ := p.step(SStdout0, "")
+			rec.Result = "ok 0"
+			return 0, nil
+		}
+		rec, f := p.step(SStdout, "")
+		k := 0
+		if f != nil && (f.Kind == FStdoutENOSPC || f.Kind == FStdoutEIO) {
+			p.stdoutErr = syscall.ENOSPC
+			if f.Kind == FStdoutEIO {
+				p.stdoutErr = syscall.EIO
+			}
+			if k = f.Param; k >= len(b) {
+				k = len(b) - 1 // the write fails: at least one byte is lost
+			}
+		}
+		if p.stdoutErr != 0 {
+			p.Stdout.Write(b[:k])
+			rec.Result = fmt.Sprintf("%s after %d", p.stdoutErr.Error(), k)
+			return k, pathErr("write", h.Name, p.stdoutErr)
+		}
 		p.Stdout.Write(b)
 		rec.Result = fmt.Sprintf("ok %d", len(b))
 		return len(b), nil
 	case 2:
-		rec, _ := p.step(SStderr, "")
+		rec, f := p.step(SStderr, "")
+		if f != nil && f.Kind == FStderrEIO {
+			p.stderrErr = syscall.EIO
+		}
+		if p.stderrErr != 0 {
+			rec.Result = p.stderrErr.Error()
+			return 0, pathErr("write", h.Name, p.stderrErr)
+		}
 		p.Stderr.Write(b)
 		rec.Result = fmt.Sprintf("ok %d", len(b))
 		return len(b), nil
